@@ -236,6 +236,7 @@ func sigParamsTableRule(c *Ctx, fnName string) {
 // setDefaultValue accepted the field, so that a DEFAULT the encoder omitted is installed again at all three sites.
 func c18Extras3(c *Ctx) {
 	w := c.W
+	digitArgsRule(c)
 	fn := w.Fn("z/encoding/asn1.parseField")
 	if fn == nil {
 		c.Undecided("R-SIBLING", "encoding/asn1.parseField", "anchor", "-", "not found")
@@ -1125,4 +1126,28 @@ func c35Extras3(c *Ctx) {
 			}})
 	}
 	c.Check(n == 1, "R-CUT", "tls.NewLRUClientSessionCache", "store of the capacity found", w.Pos(fn.Pos()), fmt.Sprint(n))
+}
+
+// digitArgsRule (R-SIGN): every number handed to the decimal digit writers of the time encoder is provably
+// non-negative where it is passed (a negative value makes appendTwoDigits emit bytes that are not digits).
+func digitArgsRule(c *Ctx) {
+	w := c.W
+	n := 0
+	for _, fn := range w.FuncsInFile("encoding/asn1/marshal.go") {
+		for _, in := range callsIn(fn, "z/encoding/asn1.appendTwoDigits", "z/encoding/asn1.appendFourDigits") {
+			cc := callCommon(in)
+			if cc == nil || len(cc.Args) != 2 {
+				continue
+			}
+			n++
+			c.Sites++
+			ok, iv := provedNonNeg(cc.Args[1], in)
+			det := "no lower bound"
+			if iv.hasLo {
+				det = fmt.Sprintf("lower bound %d", iv.lo)
+			}
+			c.Check(ok, "R-SIGN", short(FuncName(fn)), fmt.Sprintf("digit writer argument #%d (%s) is non-negative", n, Expr(cc.Args[1])), w.InstrPos(in), det)
+		}
+	}
+	c.Check(n >= 9, "R-SIGN", "encoding/asn1", "calls of appendTwoDigits/appendFourDigits found", "-", fmt.Sprint(n))
 }
